@@ -51,11 +51,16 @@ def _random_polygon(rng, cx, cy, r):
 
 
 def shoelace(p):
+    """signed area; computed relative to the first vertex so that small polygons far from the origin
+    (a 20 m cage at 60 N) do not lose their area to cancellation"""
     s = 0
     n = len(p)
+    if n == 0:
+        return 0.0
+    x0, y0 = p[0]
     for i in range(n):
         x1, y1 = p[i]; x2, y2 = p[(i + 1) % n]
-        s += x1 * y2 - x2 * y1
+        s += (x1 - x0) * (y2 - y0) - (x2 - x0) * (y1 - y0)
     return s / 2
 
 
